@@ -41,7 +41,10 @@ def lifecycle_scenarios(n_producers, dispatchers=("backtesting", "realtime"), fu
                                 # every third scenario: user code wraps the log record factory during the run
                                 "wrap_factory": disp == "backtesting" and len(out) % 3 == 1,
                                 "user_converter": len(out) % 4 == 2,
-                                "thread": len(out) % 5 == 3})
+                                "thread": len(out) % 5 == 3,
+                                # a second stop request arrives while the producers are being finalised (a watchdog,
+                                # a finaliser that asks the dispatcher to stop): finalisation is not cancellable
+                                "fin_stop": len(out) % 7 == 5})
     return out
 
 
@@ -78,6 +81,12 @@ async def _run_lifecycle(sc):
 
         async def finalize(self):
             log.append(("F", self.pid))
+            if sc.get("fin_stop"):
+                await asyncio.sleep(0)
+                if self.pid == 0:
+                    d.stop()
+                await asyncio.sleep(0.005)
+                log.append(("Fdone", self.pid))
             if self.beh[2] == "raise":
                 raise RuntimeError("finalize %d" % self.pid)
 
@@ -253,6 +262,12 @@ def monitor_lifecycle(sc, log, outcome, logging_ok, detail):
     fins = sorted(r[1] for k, r in calls if r[0] == "F")
     if fins != list(range(n)):
         out.append(("lifecycle:not-finalized-exactly-once", f"finalize() calls: {fins} for {n} producers"))
+    if sc.get("fin_stop") and outcome != "Timeout":
+        done = sorted(r[1] for r in log if r[0] == "Fdone")
+        if done != fins:
+            out.append(("lifecycle:finalize-interrupted",
+                        f"finalize() was entered for {fins} but ran to its end for {done} only (a stop request during "
+                        f"finalisation must not cancel it)"))
     init_fail = any(b[0] == "raise" for b in sc["producers"])
     main_fail = any(b[1] == "raise" for b in sc["producers"])
     if outcome == "Timeout":
